@@ -23,6 +23,12 @@ from inscripta.biocantor.gene.collections import AnnotationCollection  # noqa: E
 from inscripta.biocantor.io.parser import seq_to_parent, seq_chunk_to_parent  # noqa: E402
 
 
+def _uuid(x):
+    import uuid
+
+    return uuid.UUID(x) if x else None
+
+
 def seqtype(x):
     if x is None:
         return None
@@ -68,6 +74,7 @@ def build_transcript(spec, parent=None, guid=None):
         transcript_symbol=s.get("transcript_symbol"),
         transcript_type=Biotype[s["transcript_type"]] if s.get("transcript_type") else None,
         sequence_name=s.get("sequence_name"),
+        sequence_guid=_uuid(s.get("sequence_guid")),
         protein_id=s.get("protein_id"),
         product=s.get("product"),
         guid=guid,
@@ -85,6 +92,7 @@ def build_cds(spec, parent=None):
         strand=Strand[s["strand"]],
         frames_or_phases=_frames(s["cds_frames"]),
         sequence_name=s.get("sequence_name"),
+        sequence_guid=_uuid(s.get("sequence_guid")),
         protein_id=s.get("protein_id"),
         product=s.get("product"),
         qualifiers=s.get("qualifiers"),
@@ -101,6 +109,7 @@ def build_feature(spec, parent=None):
         strand=Strand[s["strand"]],
         qualifiers=s.get("qualifiers"),
         sequence_name=s.get("sequence_name"),
+        sequence_guid=_uuid(s.get("sequence_guid")),
         feature_types=s.get("feature_types"),
         feature_name=s.get("feature_name"),
         feature_id=s.get("feature_id"),
@@ -127,6 +136,7 @@ def build_gene(spec, parent=None):
         locus_tag=s.get("locus_tag"),
         qualifiers=s.get("qualifiers"),
         sequence_name=s.get("sequence_name"),
+        sequence_guid=_uuid(s.get("sequence_guid")),
         parent_or_seq_chunk_parent=parent,
     )
     return obj, s
@@ -147,6 +157,7 @@ def build_feature_collection(spec, parent=None):
         feature_collection_type=s.get("feature_collection_type"),
         locus_tag=s.get("locus_tag"),
         sequence_name=s.get("sequence_name"),
+        sequence_guid=_uuid(s.get("sequence_guid")),
         qualifiers=s.get("qualifiers"),
         parent_or_seq_chunk_parent=parent,
     )
@@ -214,6 +225,7 @@ def build_collection(spec, parent="__from_spec__"):
         name=s.get("name"),
         id=s.get("id"),
         sequence_name=s.get("sequence_name"),
+        sequence_guid=_uuid(s.get("sequence_guid")),
         qualifiers=s.get("qualifiers"),
         start=s.get("start"),
         end=s.get("end"),
